@@ -77,7 +77,7 @@ impl Stream for Programs
 	}
 	fn count(&self, tier: Tier) -> u64
 	{
-		tier.pick(1500, 100_000)
+		tier.pick(4000, 100_000)
 	}
 	fn choice_len(&self) -> usize
 	{
